@@ -116,6 +116,9 @@ def validate_option(key, val):
                'stop_signal'):
         if not isinstance(val, int):
             raise MessageError("%r isn't an integer" % key)
+        if key == 'max_age_variance' and val < 0:
+            # (the expiry test draws from range(0, variance + 1))
+            raise MessageError("%r can't be negative" % key)
 
     elif key in ('warmup_delay', 'retry_in', 'graceful_timeout',):
         if not isinstance(val, (int, float)):
